@@ -143,7 +143,7 @@ def canon(b):
 
 # ---------------------------------------------------------------------- plans
 
-def rw_rules(rng, tag, hard=False):
+def rw_rules(rng, tag, hard=False, last=False):
     """Benign rules for one process: short/EINTR on source reads, bytecode reads/writes, stdout."""
     rules = []
 
@@ -168,6 +168,10 @@ def rw_rules(rng, tag, hard=False):
     if rng.chance(1, 5):
         # a file whose reported size is 0 although it delivers data (as procfs files, pipes and some network file systems do)
         rules.append({"id": tag + "sz", "call": "stat", "pat": rng.choice(["*.mmm", "*.ms", "*"]), "nth": "*", "act": "size:0"})
+    if last and rng.chance(1, 3):
+        # a bytecode file that cannot be seeked in (a pipe where a file is expected): reading it front to back still works
+        # (only for the process that executes the binary form: the transpiler does seek in its text input)
+        rules.append({"id": tag + "sk", "call": "seek", "pat": "*.mmm", "nth": "*", "act": "errno:ESPIPE"})
     if rng.chance(1, 5):
         # every directory is a file system of its own: a rename across directories fails with EXDEV
         rules.append({"id": tag + "xd", "call": "rename", "pat": "*", "nth": "*", "act": "xdev"})
@@ -187,7 +191,7 @@ def gen_env(rng, batch, nprocs, same_seed=False):
     for i in range(nprocs):
         rules = []
         if batch in ("benign", "hard"):
-            rules = rw_rules(rng, "p%d" % i, hard=(batch == "hard" and i == rng.below(nprocs)))
+            rules = rw_rules(rng, "p%d" % i, hard=(batch == "hard" and i == rng.below(nprocs)), last=(i == nprocs - 1))
         env["plans"].append({"seed": seeds[i], "rules": rules})
         ppm = rng.weighted([(0, 4), (10000, 2), (100000, 2), (1000000, 1)]) if batch != "fault_free" else rng.choice([0, 0, 1000000])
         env["gc"].append("%d:%d" % (rng.below(1 << 30), ppm) if ppm else None)
@@ -197,7 +201,12 @@ def gen_env(rng, batch, nprocs, same_seed=False):
         if rng.chance(1, 3):
             env["torn"] = {"kth_write": rng.range(1, 4)}
     # how the user spells the entry file on the command line (the same spelling in every process of the case)
-    env["spell"] = rng.weighted([("", 6), ("./", 2), (".//", 1), ("././", 1), ("abs", 1)])
+    env["spell"] = rng.weighted([("", 6), ("./", 2), (".//", 1), ("././", 1), ("abs", 1), ("absgone", 1)])
+    # environment variables that must not matter
+    env["vars"] = rng.weighted([({}, 8), ({"CLICOLOR_FORCE": "1"}, 1), ({"SIMWORLD_CLOCK": "freeze"}, 1)])
+    if batch in ("benign", "hard") and rng.chance(1, 6):
+        # the artefacts are read-only by the time they are executed (the last process only reads)
+        env["plans"][-1]["rules"].append({"id": "ro", "call": "open", "pat": "*.mmm", "nth": "*", "act": "rdonly"})
     # options of `run` that must not change what the program does or how it ends
     env["run_flags"] = rng.weighted([([], 8), (["--profile"], 1), (["--no-pb"], 1)])
     return env
@@ -205,7 +214,7 @@ def gen_env(rng, batch, nprocs, same_seed=False):
 
 def spelled(env, cwd, ent):
     sp = env.get("spell") or ""
-    if sp == "abs":
+    if sp in ("abs", "absgone"):
         return os.path.join(cwd, ent)
     return sp + ent
 
@@ -256,13 +265,18 @@ def module_artefacts(files, entry):
 
 # -------------------------------------------------------------------- the legs
 
+def inv(env):
+    """Keyword arguments every process of a case is started with."""
+    return {"extra_env": dict(env.get("vars") or {}), "gone_cwd": env.get("spell") == "absgone"}
+
+
 def leg_run(files, entry, env, idx, dump=False):
     world = core.fresh_world(files, sub="run")
     place_dirty(world, env, module_artefacts(files, entry))
     cwd, ent = os.path.join(world, os.path.dirname(entry)), os.path.basename(entry)
     ent = spelled(env, cwd, ent)
     flags = list(env.get("run_flags") or [])
-    p = core.run_cmd(cwd, ["run", ent, "-q"] + flags, plan=env["plans"][idx], gc=env["gc"][idx], dump=dump)
+    p = core.run_cmd(cwd, ["run", ent, "-q"] + flags, plan=env["plans"][idx], gc=env["gc"][idx], dump=dump, **inv(env))
     if "--profile" in flags:
         # the profile report follows the program's output after one empty line; it is not program output
         p["out"] = core.strip_profile(p["out"])
@@ -280,13 +294,13 @@ def leg_compile_execute(files, entry, env, idx, dump=False):
         tplan = {"seed": env["plans"][idx]["seed"],
                  "rules": [{"id": "torn", "call": "write", "pat": "*.mmm", "nth": str(env["torn"]["kth_write"]), "act": "short:3"},
                            {"id": "tornk", "call": "write", "pat": "*.mmm", "nth": str(env["torn"]["kth_write"] + 1), "act": "kill"}]}
-        t = core.run_cmd(cwd, ["compile", ent, "--quick"], plan=tplan)
+        t = core.run_cmd(cwd, ["compile", ent, "--quick"], plan=tplan, **inv(env))
         t["aux"] = True
         procs.append(t)
-    c = core.run_cmd(cwd, ["compile", ent, "--quick"], plan=env["plans"][idx])
+    c = core.run_cmd(cwd, ["compile", ent, "--quick"], plan=env["plans"][idx], **inv(env))
     procs.append(c)
     if c["rc"] == 0:
-        e = core.run_cmd(cwd, ["execute", ent[:-3] + ".mmm"], plan=env["plans"][idx + 1], gc=env["gc"][idx + 1], dump=dump)
+        e = core.run_cmd(cwd, ["execute", ent[:-3] + ".mmm"], plan=env["plans"][idx + 1], gc=env["gc"][idx + 1], dump=dump, **inv(env))
         procs.append(e)
     return procs
 
@@ -301,7 +315,7 @@ def leg_transpile_execute(files, entry, env, idx, dump=False, shortcut=False):
             with open(os.path.join(cwd, rel), "wb") as f:
                 f.write(dirty_bytes(env["dirty"]["kind"], env["dirty"]["fill"], 400))
     procs = []
-    c = core.run_cmd(cwd, ["compile", sstem + ".ms", "--output-format", "raw-text", "--quick"], plan=env["plans"][idx])
+    c = core.run_cmd(cwd, ["compile", sstem + ".ms", "--output-format", "raw-text", "--quick"], plan=env["plans"][idx], **inv(env))
     procs.append(c)
     if c["rc"] != 0:
         return procs, None
@@ -314,13 +328,13 @@ def leg_transpile_execute(files, entry, env, idx, dump=False, shortcut=False):
             f.write(dirty_bytes(env["dirty"]["kind"], env["dirty"]["fill"], len(text_form)))
     if shortcut:
         e = core.run_cmd(cwd, ["execute", sstem + ".transpiled.mmm", "--transpile"], plan=env["plans"][idx + 1],
-                         gc=env["gc"][idx + 1], dump=dump)
+                         gc=env["gc"][idx + 1], dump=dump, **inv(env))
         procs.append(e)
         return procs, text_form
-    t = core.run_cmd(cwd, ["transpile", sstem + ".transpiled.mmm"], plan=env["plans"][idx + 1])
+    t = core.run_cmd(cwd, ["transpile", sstem + ".transpiled.mmm"], plan=env["plans"][idx + 1], **inv(env))
     procs.append(t)
     if t["rc"] == 0:
-        e = core.run_cmd(cwd, ["execute", sstem + ".mmm"], plan=env["plans"][idx + 2], gc=env["gc"][idx + 2], dump=dump)
+        e = core.run_cmd(cwd, ["execute", sstem + ".mmm"], plan=env["plans"][idx + 2], gc=env["gc"][idx + 2], dump=dump, **inv(env))
         procs.append(e)
     return procs, text_form
 
@@ -373,6 +387,10 @@ def shrink_env(case):
     if env.get("run_flags"):
         c = copy.deepcopy(case)
         c["env"]["run_flags"] = []
+        yield c
+    if env.get("vars"):
+        c = copy.deepcopy(case)
+        c["env"]["vars"] = {}
         yield c
     for key in ("dirty", "torn"):
         if env.get(key):
